@@ -84,7 +84,7 @@ Definition offered_groups (a : algo) (sffo : bool) (pool : list group) : list gr
   filter (is_offered a sffo) pool.
 
 (* ------------------------------------------------------------------------------------------- *)
-(* Parameters of one call and the reported result *)
+(* The arguments of one call and the reported result *)
 Record sparams := mkParams {
   p_sffo : bool;             (* m_subtract_fee_outputs *)
   p_target : Z;              (* selection_target / nTargetValue *)
@@ -462,6 +462,134 @@ Definition select_coins_bnb (sffo : bool) (pool : list group) (target coc maxw :
   let tagged := sort_by (fun a b => descending sffo (snd a) (snd b))
                         (filter (fun p => 0 <? amt sffo (snd p)) (tag_pool pool)) in
   match bnb_core sffo (map snd tagged) target coc maxw with
+  | BnbSome sel s w c t =>
+    match pick_at 0 tagged sel with
+    | Some ps => (BnbSome sel s w c t, map fst ps)
+    | None => (BnbErr, [])
+    end
+  | o => (o, [])
+  end.
+
+(* ------------------------------------------------------------------------------------------- *)
+(* CoinGrinder, transcribed.  The search loop has the shape of SelectCoinsBnB's (same deselect_last, SHIFT loop and
+   clone skipping); the evaluation differs: minimum weight, ties broken by the lower amount.
+
+   struct { bool operator()(const OutputGroup& a, const OutputGroup& b) const {
+       if (a.GetSelectionAmount() == b.GetSelectionAmount()) { return a.m_weight < b.m_weight; }
+       return a.GetSelectionAmount() > b.GetSelectionAmount(); } } descending_effval_weight; *)
+Definition descending_effval_weight (sffo : bool) (a b : group) : bool :=
+  if amt sffo a =? amt sffo b then g_weight a <? g_weight b else amt sffo b <? amt sffo a.
+
+(* min_tail_weight[index] = minimum weight after index (std::numeric_limits<int>::max() after the last) *)
+Fixpoint min_tail (l : list Z) : list Z * Z :=
+  match l with
+  | [] => ([], INT32_MAX)
+  | w :: r => let '(mt, m) := min_tail r in (m :: mt, Z.min m w)
+  end.
+
+Section CG.
+Variable pool : list group.
+Variable sffo : bool.
+Variable la : list Z.             (* lookahead *)
+Variable mtw : list Z.            (* min_tail_weight *)
+Variables total_target maxw : Z.
+
+(* EVALUATE current selection (b_bestw holds best_selection_weight, best_amt is best_selection_amount):
+       auto curr_tail = curr_selection.back();
+       if (curr_amount + lookahead[curr_tail] < total_target) { should_cut = true; }
+       else if (curr_weight > best_selection_weight) {
+           if (curr_weight > max_selection_weight) max_tx_weight_exceeded = true;
+           if (utxo_pool[curr_tail].m_weight <= min_tail_weight[curr_tail]) should_cut = true; else should_shift = true; }
+       else if (curr_amount >= total_target) { should_shift = true;
+           if (curr_weight < best_selection_weight || (curr_weight == best_selection_weight && curr_amount < best_selection_amount)) {
+               best_selection = curr_selection; best_selection_weight = curr_weight; best_selection_amount = curr_amount; } }
+       else if (!best_selection.empty() && curr_weight + int64_t{min_tail_weight[curr_tail]} *
+                ((total_target - curr_amount + utxo_pool[curr_tail].GetSelectionAmount() - 1) / utxo_pool[curr_tail].GetSelectionAmount())
+                > best_selection_weight) {
+           if (utxo_pool[curr_tail].m_weight <= min_tail_weight[curr_tail]) should_cut = true; else should_shift = true; } *)
+Definition cg_eval (st : bst) (best_amt : Z) (cs' : list nat) (amt' w' lah : Z) (u : group) (mt : Z)
+  : bool * bool * bool * list nat * Z * Z :=
+  let cut_not_shift := g_weight u <=? mt in
+  if amt' + lah <? total_target then (true, false, b_mwe st, b_best st, b_bestw st, best_amt)
+  else if b_bestw st <? w' then
+    (cut_not_shift, negb cut_not_shift, (if maxw <? w' then true else b_mwe st), b_best st, b_bestw st, best_amt)
+  else if total_target <=? amt' then
+    if (w' <? b_bestw st) || ((w' =? b_bestw st) && (amt' <? best_amt))
+    then (false, true, b_mwe st, cs', w', amt')
+    else (false, true, b_mwe st, b_best st, b_bestw st, best_amt)
+  else if negb (match b_best st with [] => true | _ => false end) &&
+          (b_bestw st <? w' + mt * cdiv (total_target - amt' + amt sffo u - 1) (amt sffo u))
+  then (cut_not_shift, negb cut_not_shift, b_mwe st, b_best st, b_bestw st, best_amt)
+  else (false, false, b_mwe st, b_best st, b_bestw st, best_amt).
+
+Inductive cg_out :=
+| CgErr | CgFuel
+| CgCont (st : bst) (best_amt : Z)
+| CgStop (st : bst) (best_amt : Z) (completed : bool).
+
+(* one iteration of `while (!is_done)`; b_waste is not used by CoinGrinder *)
+Definition cg_iter (st : bst) (best_amt : Z) : cg_out :=
+  match nth_error pool (b_next st), nth_error la (b_next st), nth_error mtw (b_next st) with
+  | Some u, Some lah, Some mt =>
+    let amt' := b_amt st + amt sffo u in
+    let w' := b_w st + g_weight u in
+    let cs' := b_next st :: b_cs st in
+    let nxt' := S (b_next st) in
+    let try' := b_try st + 1 in
+    let '(cut, shift, mwe', best', bestw', bamt') := cg_eval st best_amt cs' amt' w' lah u mt in
+    let st1 := mkB cs' amt' w' (b_waste st + gwaste u) best' bestw' nxt' try' mwe' in
+    if TOTAL_TRIES <=? try' then CgStop st1 bamt' false
+    else
+      let cut := cut || Nat.eqb nxt' (length pool) in
+      match (if cut then deselect_last pool sffo st1 else Some st1) with
+      | None => CgErr
+      | Some st2 =>
+        if cut || shift then
+          match shift_loop pool sffo (S (length pool)) st2 with
+          | None => CgErr
+          | Some (st3, done) => if done then CgStop st3 bamt' true else CgCont st3 bamt'
+          end
+        else CgCont st2 bamt'
+      end
+  | _, _, _ => CgErr
+  end.
+
+Fixpoint cg_loop (fuel : nat) (st : bst) (best_amt : Z) : cg_out :=
+  match fuel with
+  | O => CgFuel
+  | S f => match cg_iter st best_amt with CgCont st' b' => cg_loop f st' b' | o => o end
+  end.
+End CG.
+
+(* the search on the sorted pool; result in the shape of bnb_out (waste := the selection's weight) *)
+Definition cg_core (sffo : bool) (pool : list group) (target change_target maxw : Z) : bnb_out :=
+  let '(la, total_available) := lookahead (map (amt sffo) pool) in
+  let '(mtw, _) := min_tail (map g_weight pool) in
+  (* const CAmount total_target = selection_target + change_target;
+     if (total_available < total_target) return util::Error(); *)
+  let total_target := target + change_target in
+  if total_available <? total_target then BnbNone false
+  else
+    (* best_selection_amount = MAX_MONEY; best_selection_weight = max_selection_weight *)
+    match cg_loop pool sffo la mtw total_target maxw (Z.to_nat TOTAL_TRIES)
+                  (mkB [] 0 0 0 [] maxw 0%nat 0 false) MAX_MONEY with
+    | CgStop st _ completed =>
+      match b_best st with
+      | [] => BnbNone (b_mwe st)
+      | best =>
+        match pick_at 0 pool (rev best) with
+        | Some s => BnbSome (rev best) s (b_bestw st) completed (b_try st)
+        | None => BnbErr
+        end
+      end
+    | _ => BnbErr
+    end.
+
+Definition coin_grinder (sffo : bool) (pool : list group) (target change_target maxw : Z)
+  : bnb_out * list nat (* positions in the given pool, in sorted-pool order *) :=
+  let tagged := sort_by (fun a b => descending_effval_weight sffo (snd a) (snd b))
+                        (filter (fun p => 0 <? amt sffo (snd p)) (tag_pool pool)) in
+  match cg_core sffo (map snd tagged) target change_target maxw with
   | BnbSome sel s w c t =>
     match pick_at 0 tagged sel with
     | Some ps => (BnbSome sel s w c t, map fst ps)
